@@ -203,7 +203,7 @@ def _public_inventory():
 def _split_cases(case):
     """Purity.tla compares every event of a case with the FIRST one: one case per world."""
     out = []
-    for w in ("float", "int"):
+    for w in ("float", "int", "scale"):
         evs = [e for e in case["events"] if e["world"] == w]
         if evs:
             out.append({"id": "%s@%s" % (case["id"], w), "fn": case["fn"],
@@ -222,6 +222,10 @@ def _selftests():
     c = copy.deepcopy(STATIC); c["events"][1]["resclass"] = "float-1"; out.append((c, "nondeterministic"))
     c = copy.deepcopy(STATIC); c["events"][3]["resclass"] = "float-1"; out.append((c, "layout-dependent"))
     c = copy.deepcopy(STATIC); c["events"][0]["mutated"] = ["arg1"]; out.append((c, "argument-mutated"))
+    sc = {"id": "static-scale", "fn": "demo.g", "events": [{"variant": v, "mutated": [], "resclass": "scale-0"} for v in SCALE_VARIANTS]}
+    out.append((sc, "ok"))
+    c = copy.deepcopy(sc); c["events"][4]["resclass"] = "scale-1"; out.append((c, "layout-dependent"))
+    c = copy.deepcopy(sc); c["events"][6]["mutated"] = ["arg0"]; out.append((c, "argument-mutated"))
     return out
 
 
@@ -274,7 +278,11 @@ def run(ctx):
                 "{C float64, same objects again, Fortran order, strided view} on a real-valued world and {C float64, int64} on an "
                 "integer-valued world; static: every Name load, every attribute chain rooted at a module-level binding, every "
                 "call whose callee is a python function of the package.  non-trivial: a fact that is not a builtin name / a "
-                "history whose result contains at least one number")
+                "history whose result contains at least one number.  scale: the recipes whose cost allows it, on long integer-valued "
+                "curves (sizes from harness/scale.py straddling 2^8..2^16 / 10^4 / 10^5; miss-count, noisy, staircase, convex, valley and "
+                "dyadic MRC shapes; x up to 4*10^5, y up to 10^7; a few wide and hundreds of tight knee clusters) in {float64, int64} x "
+                "{C, same objects again, Fortran order, strided view} plus an in-place update of the caller's arrays, judged by the "
+                "same Purity.tla histories")
     ctx.assumptions += [
         "results: index-valued parts identical, real-valued parts equal within rel 1e-12; an int-typed and a float-typed array "
         "with equal values are the same result",
@@ -295,13 +303,19 @@ def run(ctx):
     ctx.extra["public_functions_driven"] = len([f for f in inv if f in driven])
     ctx.extra["not_driven"] = dict(recipes.NOT_DRIVEN, **{g: "NO RECIPE (coverage gap)" for g in gaps})
     nworlds = 3 if ctx.quick else 12
-    hist = par.pmap(_history, [(name, ctx.seed * 1000 + wk, wk) for name in sorted(R) for wk in range(nworlds)], chunksize=4)
+    sitems = _scale_items(ctx)
+    allh = par.pmap(_dyn_item, sitems + [(name, ctx.seed * 1000 + wk, wk) for name in sorted(R) for wk in range(nworlds)], chunksize=1)
+    shist, hist = allh[:len(sitems)], allh[len(sitems):]
     ctx.extra["worlds_per_recipe"] = nworlds
     cases = []
     for h in hist:
         cases += _split_cases(h)
+    for h in shist:
+        cases += _split_cases(h)
     byname = {h["id"]: h for h in hist}
     rej = ctx.trace("Purity", cases, selftest=_selftests(), chunk=400)
+    _scale_judge(ctx, shist, rej)
+    rej = {k: v for k, v in rej.items() if not k.startswith("scale:")}
     for h in hist:
         ctx.count(("dyn", h["id"]), any(ch.isdigit() for e in h["events"] for ch in str(e["shown"])))
         name = h["fn"]
@@ -337,6 +351,10 @@ def replay(ctx, obj):
         return
     if c["kind"] == "hist":
         _history_sweep(ctx, only=c["fn"])
+        return
+    if c["kind"] == "scale":
+        h = _scale_history(("scale", c["fn"], c["n"], c["shape"], c["wseed"], int(c.get("lite", 0))))
+        _scale_judge(ctx, [h], ctx.trace("Purity", _split_cases(h)), quiet=True)
         return
     if c["kind"] == "tiny":
         fn, mk = _tiny_calls()[c["fn"]]
@@ -461,3 +479,539 @@ def _history_sweep(ctx, only=None):
                           match="history-dependent:%s" % name.split("[")[0])
     ctx.extra["history_sweep_calls"] = 2 * len(a)
     return diff
+
+
+# =====================================================================================================================
+# ---- scale family: production-size curves (10^3 .. 10^5 points, magnitudes up to x ~ 4*10^5 / y ~ 10^7, hundreds of knees)
+# replayed as {float64, int64} x {C, same objects again, Fortran order, strided view} through the functions the small sweep
+# drives.  The call history of every (function, world) is judged by the SAME validator (Purity.tla): the case that reaches
+# TLC holds only the variant name, the list of mutated arguments and the result class of every call, whatever the size.
+# Result classes follow the file's policy (index-valued parts exact, reals within rel 1e-12) widened for long reductions
+# by about n * eps; decisions that sit within rounding noise of a tie pin nothing and are removed from the inputs
+# (clusters whose two best rankings are closer than 1e-6, a Kneedle concavity vote that is ~0, constant segments).
+SCALE_VARIANTS = ("C", "again", "F", "view", "int", "intF", "intview")
+SCALE_LITE = ("C", "again", "view", "intF")      # the per-sample python loops at the largest sizes of the quick tier
+SCALE_SHAPES = ("misscount", "noisy", "stairs", "convex", "valley", "mrc")
+_EPS = 2.220446049250313e-16
+
+
+def _scale_tol(n):
+    return 1e-12 + 4.0 * n * _EPS
+
+
+def _r2_own(x, y):
+    """Pearson r^2 from centred float64 sums (the guard's own arithmetic, independent of the library)."""
+    if len(x) <= 2:
+        return 1.0
+    x = np.asarray(x, dtype=np.float64)
+    y = np.asarray(y, dtype=np.float64)
+    dx = x - x.mean()
+    dy = y - y.mean()
+    sxx, syy = float(np.dot(dx, dx)), float(np.dot(dy, dy))
+    if sxx == 0.0 or syy == 0.0:
+        return float("nan")
+    return float(np.dot(dx, dy)) ** 2 / (sxx * syy)
+
+
+def _cluster_pinned(x, y, ks):
+    """True when the best knee of the cluster `ks` is decided beyond rounding noise for the left, linear and right rankings."""
+    if len(ks) < 2:
+        return True
+    j, last = ks[0], ks[-1]
+    peak = float(np.max(y[ks]))
+    w = np.array([abs(peak - float(y[k])) for k in ks])
+    if not w.sum() > 0:
+        return False
+    w = w / w.sum()
+    left = np.array([_r2_own(x[j:k + 1], y[j:k + 1]) for k in ks])
+    right = np.array([_r2_own(x[k:last], y[k:last]) for k in ks])
+    for fit in (left, right, (left + right) / 2.0):
+        r = fit * w
+        if not np.all(np.isfinite(r)):
+            return False
+        top = np.sort(r)[::-1]
+        if not (top[0] - top[1] > 1e-6 * max(top[0], 1e-300)):
+            return False
+    return True
+
+
+def _threshold_between(x, knees, groups):
+    """single-linkage threshold separating the within-cluster gaps from the between-cluster gaps of `groups`"""
+    length = float(x[knees[-1]] - x[knees[0]])
+    within = [float(x[g[i + 1]] - x[g[i]]) for g in groups for i in range(len(g) - 1)] or [0.0]
+    between = [float(x[groups[i + 1][0]] - x[groups[i][-1]]) for i in range(len(groups) - 1)] or [length]
+    return (max(within) + min(between)) / 2.0 / length
+
+
+class _ScaleWorld:
+    """One long curve with integer-valued coordinates (so that an int64 representation of the same values exists; `mrc` has
+    dyadic non-integral ordinates and is replayed in the float64 layouts only) and everything the recipes need on it."""
+
+    def __init__(self, n, shape, wseed):
+        import zlib
+        from harness import scale as sc
+        self.n, self.shape, self.wseed = n, shape, wseed
+        rng = random.Random(zlib.crc32(("%d/%s/%d" % (n, shape, wseed)).encode()))
+        nrs = np.random.RandomState(rng.randrange(2 ** 31))
+        i = np.arange(n, dtype=np.float64)
+        u = i / n
+        if shape in ("misscount", "noisy"):
+            # miss COUNT curve: misses out of M requests against the cache size; convex decays separated by logistic cliffs
+            M = 1e7 if shape == "misscount" else 1e5
+            a = [rng.uniform(0.3, 0.5), rng.uniform(0.15, 0.3), rng.uniform(0.1, 0.25), rng.uniform(0.05, 0.15)]
+            c1, c2 = rng.uniform(0.18, 0.35), rng.uniform(0.55, 0.75)
+            mr = (a[0] * np.exp(-u / rng.uniform(0.02, 0.05)) + a[1] / (1.0 + np.exp((u - c1) / rng.uniform(0.008, 0.02)))
+                  + a[2] / (1.0 + np.exp((u - c2) / rng.uniform(0.01, 0.03))) + a[3] * (1.0 - u)) / sum(a)
+            y = np.rint(M * mr)
+            x = 4.0 * i if shape == "misscount" else np.cumsum(nrs.randint(1, 4, n)).astype(np.float64)
+            if shape == "noisy":
+                y = np.maximum(0.0, y + nrs.randint(-40, 41, n))
+        elif shape == "stairs":
+            y = sc.staircase(n, rng.randrange(5, 40), rng)[:, 1] * 1000.0 + (n - i) + nrs.randint(0, 2, n)
+            x = np.cumsum(nrs.randint(1, 4, n)).astype(np.float64)
+        elif shape == "convex":
+            y = sc.convex_pl(n, rng.randrange(4, 60))[:, 1]
+            x = i.copy()
+        elif shape == "valley":
+            y = sc.valley(n, rng)[:, 1] + nrs.randint(0, 3, n)
+            x = np.cumsum(nrs.randint(1, 3, n)).astype(np.float64)
+        elif shape == "mrc":
+            y = sc.mrc(n, rng, knees=rng.randrange(3, 9))[:, 1]
+            x = i.copy()
+        else:
+            raise ValueError(shape)
+        assert np.all(np.diff(x) > 0)
+        self.x, self.y = np.ascontiguousarray(x), np.ascontiguousarray(y, dtype=np.float64)
+        self.P = np.ascontiguousarray(np.column_stack([self.x, self.y]))
+        self.integral = bool(np.all(self.y == np.floor(self.y)))
+        self.ymag = float(np.max(np.abs(self.y)))
+        self.xmag = float(np.max(np.abs(self.x)))
+        m = (self.y[-1] - self.y[0]) / (self.x[-1] - self.x[0])
+        self.coef = (float(self.y[0] - m * self.x[0]), float(m))
+        self.yh = self.y * 0.9 + 0.01 * self.ymag / 64.0
+        self.vec = nrs.permutation(n) * 3.0 + 1.0          # distinct values: the order of tied entries pins nothing in a ranking
+        # ---- knees: a few WIDE clusters (each spans about a tenth of the curve: long segments inside the rankings) ...
+        wide = []
+        nc = rng.randrange(2, 4)
+        slot = 0.9 / nc
+        for c in range(nc):
+            base = (0.06 + c * slot + rng.uniform(0.0, 0.03)) * n
+            span = rng.uniform(0.30, 0.45) * slot * n
+            mcount = rng.randrange(3, 6)
+            g = sorted(set(int(base + span * (j + (rng.uniform(-0.25, 0.25) if 0 < j < mcount - 1 else 0.0)) / (mcount - 1))
+                           for j in range(mcount)))
+            wide.append([k for k in g if 2 <= k <= n - 3])
+        # ---- ... and MANY tight clusters of 1-4 knees a few samples apart
+        many = []
+        pos = rng.randrange(3, 30)
+        stride = max(24, n // min(400, max(8, n // 40)))
+        while pos < n - 40:
+            g, k = [], pos
+            for _ in range(rng.randrange(1, 5)):
+                g.append(k)
+                k += rng.randrange(2, 6)
+            many.append(g)
+            pos += stride + rng.randrange(0, stride // 2)
+        self.dropped_clusters = 0
+        for nm, groups in (("wide", wide), ("many", many)):
+            kept = [g for g in groups if len(g) >= 1 and _cluster_pinned(self.x, self.y, g)]
+            self.dropped_clusters += len(groups) - len(kept)
+            if len(kept) < 2:
+                kept = [[max(2, n // 5)], [min(n - 3, (4 * n) // 5)]]
+            ks = np.array([k for g in kept for k in g], dtype=np.int64)
+            setattr(self, "knees_" + nm, ks)
+            setattr(self, "groups_" + nm, kept)
+            setattr(self, "t_" + nm, _threshold_between(self.x, ks, kept))
+        self.cluster = np.array(max(self.groups_wide, key=len), dtype=np.int64)      # ONE cluster (smooth_ranking's argument)
+        # ---- a reduced index set (as an RDP would return), what it removed, knees in the reduced space, expected knee points
+        R = min(300, max(8, n // 12))
+        red = sorted(set([0, n - 1] + [rng.randrange(1, n - 1) for _ in range(R)]))
+        self.reduced = np.array(red, dtype=np.int64)
+        self.removed = np.array([[red[k - 1], red[k] - red[k - 1] - 1] for k in range(1, len(red))], dtype=np.int64)
+        self.rknees = np.array(sorted(rng.sample(range(1, len(red) - 1), min(12, len(red) - 2))), dtype=np.int64)
+        sel = self.knees_many[:: max(1, len(self.knees_many) // 40)]
+        self.exp = self.P[sel] + np.column_stack([nrs.randint(0, 3, len(sel)), nrs.randint(-2, 3, len(sel))]).astype(np.float64)
+        self.Z = np.ascontiguousarray(np.column_stack([self.x, self.y / (self.ymag + 1.0)]))
+        d = self.y - (self.coef[0] + self.coef[1] * self.x)
+        self.vote_pinned = bool(abs(float(np.sum(d))) > 1e-6 * float(np.sum(np.abs(d))))
+
+
+def _scale_recipes():
+    """name -> (function, args builder on a _ScaleWorld, largest n the recipe is replayed at, absolute noise scale).
+    The absolute noise scale (a function of the world, or None) is the magnitude whose rounding the result inherits when
+    the function subtracts quantities of that size (residuals against a line through points of magnitude |y|)."""
+    import kneeliverse.clustering as cl
+    import kneeliverse.convex_hull as ch
+    import kneeliverse.curvature as cu
+    import kneeliverse.dfdt as df
+    import kneeliverse.evaluation as ev
+    import kneeliverse.knee_ranking as kr
+    import kneeliverse.kneedle as kn
+    import kneeliverse.linear_fit as lf
+    import kneeliverse.lmethod as lm
+    import kneeliverse.menger as me
+    import kneeliverse.metrics as mt
+    import kneeliverse.postprocessing as pp
+    import kneeliverse.rdp as rdp
+    import kneeliverse.zmethod as zm
+    BIG = 10 ** 9
+    R = {}
+
+    HEAVY = ("knee_ranking.slope_ranking", "kneedle.", "menger.knee", "convex_hull.", "postprocessing.filter_clusters[hull", "evaluation.mip",
+             "lmethod.")        # a python-level loop over every sample: seconds per call at 10^5 points
+
+    UNIT = ("r2", "get_neighbourhood", "smooth_ranking", "slope_ranking", "accuracy_")      # results that live on the scale of 1
+    one = lambda W: 1.0
+
+    def add(name, fn, mk, maxn=BIG, ab=None, need=None):
+        if ab is None and any(u in name for u in UNIT):
+            ab = one
+        R[name] = (fn, mk, maxn, ab, need, name.startswith(HEAVY))
+
+    ymag = lambda W: W.ymag
+    for r in mt.R2:
+        add("linear_fit.r2[%s]" % r, lf.r2, (lambda r: lambda W: [W.x, W.y, r])(r))
+        add("linear_fit.r2_points[%s]" % r, lf.r2_points, (lambda r: lambda W: [W.P, r])(r))
+        add("linear_fit.linear_r2[%s]" % r, lf.linear_r2, (lambda r: lambda W: [W.x, W.y, W.coef, r])(r))
+        add("linear_fit.linear_r2_points[%s]" % r, lf.linear_r2_points, (lambda r: lambda W: [W.P, W.coef, r])(r))
+        add("metrics.r2[%s]" % r, mt.r2, (lambda r: lambda W: [W.y, W.yh, r])(r))
+    add("linear_fit.r2[inner]", lf.r2, lambda W: [W.x[W.n // 9: W.n - W.n // 7], W.y[W.n // 9: W.n - W.n // 7]])
+    add("linear_fit.linear_fit", lf.linear_fit, lambda W: [W.x, W.y])
+    add("linear_fit.linear_fit_points", lf.linear_fit_points, lambda W: [W.P])
+    add("linear_fit.linear_transform", lf.linear_transform, lambda W: [W.x, W.coef])
+    add("linear_fit.linear_transform_points", lf.linear_transform_points, lambda W: [W.P, W.coef])
+    add("linear_fit.linear_hv_residuals", lf.linear_hv_residuals, lambda W: [W.x, W.y])
+    add("linear_fit.linear_hv_residuals_points", lf.linear_hv_residuals_points, lambda W: [W.P])
+    for v in (False, True):
+        add("linear_fit.linear_fit_transform[%s]" % v, lf.linear_fit_transform, (lambda v: lambda W: [W.x, W.y, v])(v), ab=ymag)
+        add("linear_fit.linear_fit_transform_points[%s]" % v, lf.linear_fit_transform_points, (lambda v: lambda W: [W.P, v])(v), ab=ymag)
+    for nm in ("rmspe", "smape", "rpd", "rmse", "linear_residuals"):
+        add("linear_fit.%s" % nm, getattr(lf, nm), lambda W: [W.x, W.y, W.coef])
+        add("linear_fit.%s_points" % nm, getattr(lf, nm + "_points"), lambda W: [W.P, W.coef])
+    add("linear_fit.linear_fit_residuals", lf.linear_fit_residuals, lambda W: [W.x, W.y])
+    add("linear_fit.linear_fit_residuals_points", lf.linear_fit_residuals_points, lambda W: [W.P])
+    add("linear_fit.shortest_distance_points", lf.shortest_distance_points, lambda W: [W.P, W.P[0], W.P[-1]], ab=ymag)
+    add("linear_fit.perpendicular_distance", lf.perpendicular_distance, lambda W: [W.P], ab=ymag)
+    add("linear_fit.perpendicular_distance_index", lf.perpendicular_distance_index, lambda W: [W.P, W.n // 7, W.n - W.n // 5], ab=ymag)
+    add("linear_fit.perpendicular_distance_points", lf.perpendicular_distance_points, lambda W: [W.P, W.P[0], W.P[-1]], ab=ymag)
+    for nm in ("rmse", "rmspe", "rpd", "residuals", "smape"):
+        add("metrics.%s" % nm, getattr(mt, nm), lambda W: [W.y, W.yh])
+    add("knee_ranking.distances", kr.distances, lambda W: [W.P[W.n // 3], W.P])
+    add("knee_ranking.distance_to_similarity", kr.distance_to_similarity, lambda W: [W.vec])
+    add("knee_ranking.rank", kr.rank, lambda W: [W.vec])
+    add("knee_ranking.slope_ranking", kr.slope_ranking, lambda W: [W.P, W.knees_many, 0.8])
+    for m in (kr.ClusterRanking.left, kr.ClusterRanking.linear, kr.ClusterRanking.right):
+        add("knee_ranking.smooth_ranking[%s]" % m, kr.smooth_ranking, (lambda m: lambda W: [W.P, W.cluster, m])(m))
+        for cfgn in ("wide", "many"):
+            add("postprocessing.filter_clusters[%s,%s]" % (m, cfgn), pp.filter_clusters,
+                (lambda m, cfgn: lambda W: [W.P, getattr(W, "knees_" + cfgn), cl.single_linkage, getattr(W, "t_" + cfgn), m])(m, cfgn))
+    for cfgn in ("wide", "many"):
+        add("postprocessing.filter_clusters[hull,%s]" % cfgn, pp.filter_clusters,
+            (lambda cfgn: lambda W: [W.P, getattr(W, "knees_" + cfgn), cl.single_linkage, getattr(W, "t_" + cfgn), kr.ClusterRanking.hull])(cfgn))
+    add("postprocessing.filter_corner_knees", pp.filter_corner_knees, lambda W: [W.P, W.knees_many, 0.33])
+    add("postprocessing.select_corner_knees", pp.select_corner_knees, lambda W: [W.P, W.knees_many, 0.33])
+    add("postprocessing.filter_worst_knees", pp.filter_worst_knees, lambda W: [W.P, W.knees_many])
+    add("postprocessing.filter_clusters_corners", pp.filter_clusters_corners, lambda W: [W.P, W.knees_many, cl.complete_linkage, W.t_many])
+    add("postprocessing.rank_corners", pp.rank_corners, lambda W: [W.P, W.knees_many])
+    add("postprocessing.rank_corners_triangle", pp.rank_corners_triangle, lambda W: [W.P, W.knees_many])
+    for e in (False, True):
+        add("postprocessing.add_points_even_knees[%s]" % e, pp.add_points_even_knees, (lambda e: lambda W: [W.P, W.knees_wide, 0.02, 0.02, e])(e))
+        add("postprocessing.add_points_even[%s]" % e, pp.add_points_even, (lambda e: lambda W: [W.P, W.reduced, W.rknees, W.removed, 0.002, 0.002, e])(e))
+    for nm in ("single_linkage", "complete_linkage", "centroid_linkage", "average_linkage"):
+        add("clustering.%s" % nm, getattr(cl, nm), lambda W: [W.P[W.knees_many], W.t_many])
+    add("convex_hull.graham_scan_lower", ch.graham_scan_lower, lambda W: [W.P])
+    add("convex_hull.graham_scan_upper", ch.graham_scan_upper, lambda W: [W.P])
+    add("convex_hull.graham_scan", ch.graham_scan, lambda W: [W.P], maxn=40000)
+    add("curvature.knee", cu.knee, lambda W: [W.P])
+    add("dfdt.knee", df.knee, lambda W: [W.P])
+    add("dfdt.get_knee", df.get_knee, lambda W: [W.x, W.y])
+    add("menger.knee", me.knee, lambda W: [W.P])
+    for cd in kn.Direction:
+        for cc in kn.Concavity:
+            add("kneedle.differences[%s,%s]" % (cd, cc), kn.differences, (lambda cd, cc: lambda W: [W.P, cd, cc])(cd, cc))
+    for p in kn.PeakDetection:
+        add("kneedle.knees[%s]" % p, kn.knees, (lambda p: lambda W: [W.P, 1.0, 1.0, p])(p))
+    add("kneedle.knee", kn.knee, lambda W: [W.P, 1.0], need="vote_pinned")
+    add("lmethod.get_knee", lm.get_knee, lambda W: [W.x, W.y], maxn=10000)
+    add("lmethod.knee", lm.knee, lambda W: [W.P], maxn=10000)
+    add("evaluation.get_neighbourhood", ev.get_neighbourhood, lambda W: [W.x, W.y, int(W.cluster[-1]), max(0, int(W.cluster[-1]) - 200), 0.9])
+    add("evaluation.get_neighbourhood_fast", ev.get_neighbourhood_fast, lambda W: [W.x, W.y, int(W.cluster[-1]), int(W.cluster[0]), 0.9])
+    add("evaluation.get_neighbourhood_binary", ev.get_neighbourhood_binary, lambda W: [W.x, W.y, int(W.cluster[-1]), int(W.cluster[0]), 0.9])
+    add("evaluation.accuracy_knee", ev.accuracy_knee, lambda W: [W.P, W.knees_many, 0.9])
+    add("evaluation.accuracy_trace", ev.accuracy_trace, lambda W: [W.P, W.knees_many])
+    for nm in ("mae", "mse", "rmse", "rmspe"):
+        for s in ev.Strategy:
+            add("evaluation.%s[%s]" % (nm, s), getattr(ev, nm), (lambda s: lambda W: [W.P, W.knees_many, W.exp, s])(s))
+    add("evaluation.cm", ev.cm, lambda W: [W.P, W.knees_many, W.exp, 0.001])
+    add("evaluation.compute_global_rmse", ev.compute_global_rmse, lambda W: [W.P, W.reduced])
+    add("evaluation.mip", ev.mip, lambda W: [W.P, W.reduced])
+    for c in mt.Metrics:
+        add("evaluation.compute_global_cost[%s]" % c, ev.compute_global_cost, (lambda c: lambda W: [W.P, W.reduced, c])(c))
+        add("evaluation.compute_partial_cost[%s]" % c, ev.compute_partial_cost, (lambda c: lambda W: [W.y, W.yh, c])(c))
+        add("rdp.compute_cost_coef[%s]" % c, rdp.compute_cost_coef, (lambda c: lambda W: [W.P, W.coef, c])(c))
+    for s in (True, False):
+        add("rdp.mapping[%s]" % s, rdp.mapping, (lambda s: lambda W: [W.rknees, W.reduced, W.removed if s else W.removed[::-1].copy(), s])(s))
+    add("rdp.compute_removed_points", rdp.compute_removed_points, lambda W: [W.P, W.reduced])
+    for nm in ("order_triangle", "order_area"):
+        add("rdp.%s" % nm, getattr(rdp, nm), lambda W: [W.P, W.n // 3, lf.shortest_distance_points])
+    add("rdp.order_segment", rdp.order_segment, lambda W: [W.P, W.n // 3])
+    add("rdp.rdp", rdp.rdp, lambda W: [W.P, 0.02])
+    add("rdp.rdp_fixed", rdp.rdp_fixed, lambda W: [W.P, 40])
+    add("rdp.grdp", rdp.grdp, lambda W: [W.P, 0.02])
+    add("zmethod.map_index", zm.map_index, lambda W: [W.x, W.x[W.knees_many]])
+    add("zmethod.knees", zm.knees, lambda W: [W.Z, 0.1, 0.05, 0.1])
+    return R
+
+
+def _scale_variant(a, kind):
+    """the same VALUES as float64 / int64 in C order, Fortran order or as a strided view; None when the representation does
+    not exist for this argument (non-integral values have no int64 form)"""
+    if not isinstance(a, np.ndarray):
+        return a
+    if kind in ("int", "intF", "intview"):
+        if a.dtype.kind in "iu":
+            return _variant(a, {"int": "C", "intF": "F", "intview": "view"}[kind])
+        b = np.ascontiguousarray(a, dtype=np.float64)
+        if not (np.all(b == np.floor(b)) and np.all(np.abs(b) < 2 ** 52)):
+            return b.copy()
+        bi = b.astype(np.int64)
+        if kind == "intF":
+            return np.asfortranarray(bi)
+        if kind == "intview":
+            if bi.ndim == 1:
+                w = np.full(len(bi) * 2 + 1, -77, dtype=np.int64)
+                w[1::2] = bi
+                return w[1::2]
+            w = np.full((bi.shape[0], bi.shape[1] * 2 + 1), -77, dtype=np.int64)      # columns of a wider table
+            w[:, 1::2] = bi
+            return w[:, 1::2]
+        return bi
+    return _variant(a, kind)
+
+
+def _has_int_form(args):
+    return any(isinstance(a, np.ndarray) and a.dtype.kind == "f" and a.size and bool(np.all(a == np.floor(a))) for a in args)
+
+
+def _scale_same(a, b, tol, ab):
+    """result equality at scale: index-valued parts exact, reals within rel `tol` (+ `tol` times the largest magnitude of the
+    array they belong to and the recipe's absolute noise scale `ab`)"""
+    if isinstance(a, dict) or isinstance(b, dict):
+        return isinstance(a, dict) and isinstance(b, dict) and a.keys() == b.keys() and all(_scale_same(a[k], b[k], tol, ab) for k in a)
+    if a is None or b is None or isinstance(a, (str, bool)) or isinstance(b, (str, bool)):
+        return type(a) is type(b) and a == b
+    if isinstance(a, (list, tuple)) and isinstance(b, (list, tuple)):
+        if len(a) != len(b):
+            return False
+        if any(isinstance(v, (list, tuple, np.ndarray, dict)) or v is None for v in list(a) + list(b)):
+            return all(_scale_same(x, y, tol, ab) for x, y in zip(a, b))
+        # a tuple of scalars (coefficients, (index, r2, slope)): every entry on its own
+        return all(_scale_same(np.asarray(x), np.asarray(y), tol, ab) for x, y in zip(a, b))
+    try:
+        A, B = np.asarray(a), np.asarray(b)
+    except Exception:
+        return False
+    if A.shape != B.shape or A.dtype.kind in "OUS" or B.dtype.kind in "OUS":
+        return A.shape == B.shape and bool(np.all(A == B))
+    if A.dtype.kind in "iub" and B.dtype.kind in "iub":
+        return bool(np.array_equal(A, B))
+    A = A.astype(np.float64)
+    B = B.astype(np.float64)
+    na, nb = np.isnan(A), np.isnan(B)
+    if not np.array_equal(na, nb):
+        return False
+    fa, fb = np.isinf(A), np.isinf(B)
+    if not (np.array_equal(fa, fb) and np.array_equal(A[fa], B[fb])):
+        return False
+    ok = ~(na | fa)
+    if not ok.any():
+        return True
+    A, B = A[ok], B[ok]
+    big = float(np.max(np.abs(A))) if A.size > 1 else 0.0
+    return bool(np.all(np.abs(A - B) <= tol * np.maximum(np.abs(A), np.abs(B)) + tol * (big + ab) + 1e-300))
+
+
+_WORLDS = {}
+
+
+def _scale_world(n, shape, wseed):
+    k = (n, shape, wseed)
+    if k not in _WORLDS:
+        if len(_WORLDS) > 3:
+            _WORLDS.clear()
+        _WORLDS[k] = _ScaleWorld(n, shape, wseed)
+    return _WORLDS[k]
+
+
+def _shown(val):
+    try:
+        if isinstance(val, np.ndarray) and val.size > 12:
+            return "ndarray%s %s ... %s" % (val.shape, val.ravel()[:5].tolist(), val.ravel()[-3:].tolist())
+        return json.dumps(_norm(val))[:160]
+    except Exception:
+        return str(val)[:160]
+
+
+def _scale_history(item):
+    """one scale recipe on one long world in every representation; returns the case for Purity.tla"""
+    _, name, n, shape, wseed, lite = item
+    fn, mk, maxn, abf, need, heavy = _scale_recipes()[name]
+    W = _scale_world(n, shape, wseed)
+    cid = "scale:%s@%s/%d/%d" % (name, shape, n, wseed)
+    base = {"id": cid, "fn": name, "n": n, "shape": shape, "wseed": wseed, "lite": lite, "events": [], "reuse": None, "skipped": None}
+    base["dropped_clusters"] = W.dropped_clusters
+    if need and not getattr(W, need):
+        return dict(base, skipped="a decision of this call sits within rounding noise of a tie on this world (%s)" % need)
+    args0 = mk(W)
+    tol = _scale_tol(n)
+    ab = float(abf(W)) if abf else 0.0
+    budget = monitor.quad(n, 8)
+    wall = 120 + n // 500
+    kinds = [k for k in (SCALE_LITE if lite >= 2 else SCALE_VARIANTS) if not k.startswith("int") or _has_int_form(args0)]
+    results = []
+    base_objs = None
+    for kind in kinds:
+        if kind == "again":
+            args = base_objs
+        else:
+            args = [_scale_variant(a, kind) for a in args0]
+        if kind == "C":
+            base_objs = args
+        before = [_digest(a) for a in args]
+        _churn(len(results))
+        out, val, _ = monitor.call(fn, tuple(args), {}, budget=budget, wall=wall)
+        after = [_digest(a) for a in args]
+        mutated = ["arg%d" % k for k in range(len(args)) if before[k] != after[k]]
+        cls = None
+        for j, (o, v) in enumerate(results):
+            if o == out and (out != "returned" or _scale_same(v, val, tol, ab)):
+                cls = j
+                break
+        if cls is None:
+            cls = len(results)
+        results.append((out, val))
+        base["events"].append({"variant": kind, "world": "scale", "mutated": mutated, "resclass": "scale-%d" % cls, "outcome": out,
+                               "shown": _shown(val) if out == "returned" else str(val)[:200]})
+    # in-place update of the caller's arrays (another world of the same size; a LOCAL change in the middle of the curve, which a
+    # fingerprint that samples a long array can miss): the answer must be the one for the new contents
+    try:
+        updates = []
+        if lite == 0:
+            updates.append(("another world", mk(_scale_world(n, shape, wseed + 1))))
+        a3 = []
+        lo, hi = n // 2 - max(2, n // 64), n // 2 + max(2, n // 64)
+        for a in args0:
+            if isinstance(a, np.ndarray) and a.dtype.kind == "f" and a.ndim in (1, 2) and a.shape[0] == n and a is not W.x:
+                b = a.copy()
+                col = b[:, 1] if b.ndim == 2 else b
+                col[lo:hi] += (np.arange(hi - lo) % 7 + 1.0) * (1.0 if float(np.max(np.abs(col))) > 64.0 else 2.0 ** -10)
+                a3.append(b)
+            else:
+                a3.append(a)
+        if lite <= 1 and any(b is not a for a, b in zip(args0, a3)):
+            updates.append(("local change in the middle of the curve", a3))
+        for what, a_new in updates:
+            objs = [_variant(a, "C") for a in args0]
+            same_shape = all((not isinstance(o, np.ndarray)) or (isinstance(b, np.ndarray) and o.shape == b.shape and o.dtype == b.dtype)
+                             for o, b in zip(objs, a_new))
+            if not (same_shape and any(isinstance(o, np.ndarray) for o in objs)):
+                continue
+            monitor.call(fn, tuple(objs), {}, budget=budget, wall=wall)
+            for o, b in zip(objs, a_new):
+                if isinstance(o, np.ndarray):
+                    o[...] = b
+            args_reuse = [o if isinstance(o, np.ndarray) else b for o, b in zip(objs, a_new)]
+            o1, v1, _ = monitor.call(fn, tuple(args_reuse), {}, budget=budget, wall=wall)
+            o2, v2, _ = monitor.call(fn, tuple(_variant(a, "C") for a in a_new), {}, budget=budget, wall=wall)
+            if o1 != o2 or (o1 == "returned" and not _scale_same(v1, v2, tol, ab)):
+                base["reuse"] = {"reused_objects": _shown(v1) if o1 == "returned" else o1, "fresh_objects": _shown(v2) if o2 == "returned" else o2,
+                                 "update": what}
+                break
+    except Exception:
+        base["reuse"] = None
+    return base
+
+
+def _dyn_item(item):
+    return _scale_history(item) if item[0] == "scale" else _history(item)
+
+
+def _scale_items(ctx):
+    """(size, shape) worlds of this run and the recipes replayed on each.  The largest size always carries the miss-count
+    shape (x up to 4*10^5, y up to 10^7: where products of sums leave the int64 / float53 range first)."""
+    from harness import scale as sc
+    R = _scale_recipes()
+    sizes = sc.sizes(ctx)
+    others = [s for s in SCALE_SHAPES if s != "misscount"]
+    ctx.rng.shuffle(others)
+    worlds = []
+    if ctx.quick:
+        worlds.append((sizes[-1], "misscount"))
+        for k, n in enumerate(sizes[:-1]):
+            worlds.append((n, others[k % len(others)]))
+        worlds.append((sizes[-1], others[len(sizes) - 1]))
+        worlds.append((sc.THRESHOLDS[ctx.rng.randrange(0, 2)] + ctx.rng.randrange(1, 200), others[len(sizes) % len(others)]))
+    else:
+        for k, n in enumerate(sizes):
+            shapes = ["misscount"] + [others[(2 * k + j) % len(others)] for j in range(2)] if (k % 2 == 1 or n == sizes[-1]) else \
+                [others[(2 * k + j) % len(others)] for j in range(3)]
+            worlds += [(n, sh) for sh in shapes]
+        worlds += [(sc.THRESHOLDS[j] + ctx.rng.randrange(1, 200), others[j]) for j in range(2)]
+    items = []
+    for n, shape in worlds:
+        for name in sorted(R):
+            maxn, heavy = R[name][2], R[name][5]
+            if n > maxn:
+                continue
+            # effort level: 0 = every representation and both in-place updates, 1 = without the other-world update,
+            # 2 = four representations only (the per-sample python loops at the largest sizes of the quick tier)
+            lite = 0 if (not ctx.quick or n <= 20000) else (2 if heavy else 1)
+            if lite == 2 and shape != "misscount":
+                continue
+            items.append(("scale", name, n, shape, ctx.seed, lite))
+    # long calls first (the pool hands the items out one by one)
+    items.sort(key=lambda it: -(it[2] * (40 if R[it[1]][5] else 1) * (0.3 if it[5] == 2 else 1.0)))
+    ctx.extra["scale_worlds"] = ["%s/%d" % (sh, n) for n, sh in worlds]
+    return items
+
+
+def _scale_judge(ctx, shist, rej, quiet=False):
+    calls = 0
+    skipped = {}
+    for h in shist:
+        case = {"kind": "scale", "fn": h["fn"], "n": h["n"], "shape": h["shape"], "wseed": h["wseed"], "lite": h["lite"]}
+        short = h["fn"].split("[")[0]
+        if h["skipped"]:
+            skipped[h["id"]] = h["skipped"]
+            continue
+        calls += len(h["events"])
+        if not quiet:
+            ctx.count(("scale", h["id"]), any(ch.isdigit() for e in h["events"] for ch in str(e["shown"])))
+        e0 = h["events"][0]
+        if e0["outcome"] != "returned":
+            if _is_link_error(e0["outcome"], e0["shown"]):
+                ctx.violation("unlinked-at-runtime", case, {"outcome": e0["outcome"], "error": e0["shown"]}, match="unlinked-at-runtime:%s" % short)
+            elif e0["outcome"] in ("budget", "watchdog"):
+                ctx.violation("no-result-at-scale(%s)" % short, case, {"outcome": e0["outcome"], "n": h["n"], "shape": h["shape"]},
+                              match="no-result-at-scale:%s" % short)
+            elif not quiet:
+                ctx.note("scale recipe %s does not run on %s/%d: %s %s" % (h["fn"], h["shape"], h["n"], e0["outcome"], e0["shown"]))
+        if h.get("reuse"):
+            ctx.violation("stale-after-in-place-update(%s)" % short, case, dict(h["reuse"], n=h["n"], shape=h["shape"]),
+                          match="stale-after-in-place-update:%s" % short)
+        vs = rej.get(h["id"] + "@scale")
+        if vs:
+            clause = vs[0][0]
+            ctx.violation("%s(%s)" % (clause, short), case,
+                          {"verdict": vs[0], "n": h["n"], "shape": h["shape"],
+                           "events": [{k: e[k] for k in ("variant", "mutated", "resclass", "outcome", "shown")} for e in h["events"]]},
+                          match="%s:%s" % (clause, short))
+    if not quiet:
+        ctx.extra["scale"] = {"histories": len(shist) - len(skipped), "calls": calls, "recipes": len(set(h["fn"] for h in shist)),
+                              "sizes": sorted(set(h["n"] for h in shist)), "skipped_as_near_ties": skipped,
+                              "knee_clusters_removed_as_near_ties": {"%s/%d" % (h["shape"], h["n"]): h.get("dropped_clusters", 0) for h in shist
+                                                                     if h.get("dropped_clusters")},
+                              "tolerance": "rel 1e-12 + 4 n eps"}
+        big = [h for h in shist if not h["skipped"] and h["events"]]
+        if big:
+            ctx.sample({"binding": "T", "scale_history": max(big, key=lambda h: (h["n"], h["fn"].startswith("postprocessing.filter_clusters")))})
